@@ -15,6 +15,7 @@ from qv.props import sched
 from qv.props.common import aggregates, in_span, require_fn
 from qv.report import Result
 from qv.rules import k2_coverage as k2
+from qv.rules.guards import same_origin
 from qv.synq import find_all, src
 
 INSTRUCTION = "quil_rs::instruction::Instruction"
@@ -130,6 +131,122 @@ def run(ctx):
     res.site(key, True, {"comparison_closures": len(folds), "verdict": "ok" if ok else "VIOLATION"})
     if not ok:
         res.find(key, asch.loc(), "no comparison closure (running maximum of predecessor end times) found in as_schedule", "an instruction starts when its *first* rather than its *last* timed predecessor ends")
+    # R4 TimeSpan::union = [min(starts), max(ends)): on every path the returned start is one of the two starts and the
+    #    path condition contains the comparison that makes it the smaller one; likewise the end is the larger end
+    from qv.rules import pathsym
+    un = [f for f in db.fns if f.name == "union" and "schedule::TimeSpan" in f.path and f.kind == "AssocFn"]
+    if len(un) != 1:
+        res.missing_anchor("TimeSpan::union")
+    else:
+        u = un[0]
+        S = {w: ("field", ("param", i_, w), "start_time", None) for i_, w in ((1, "self"), (2, "rhs"))}
+        D = {w: ("field", ("param", i_, w), "duration", None) for i_, w in ((1, "self"), (2, "rhs"))}
+
+        def same(a, b):
+            a, b = pathsym._strip_clone(a), pathsym._strip_clone(b)
+            if a[0] == "field" and b[0] == "field":
+                return a[2] == b[2] and same(a[1], b[1])
+            if a[0] == "param" and b[0] == "param":
+                return a[1] == b[1]
+            if a[0] == "call" and b[0] == "call":
+                return a[1] == b[1] and len(a[2]) == len(b[2]) and all(same(x, y) for x, y in zip(a[2], b[2]))
+            return a == b
+
+        def which_start(e):
+            return [w for w in S if same(e, S[w])]
+
+        def which_end(e):
+            e = pathsym._strip_clone(e)
+            if e[0] == "call" and e[1].endswith("::add") and len(e[2]) == 2:
+                return [w for w in S if same(e[2][0], S[w]) and same(e[2][1], D[w])]
+            return []
+
+        verdict, detail = "ok", {"paths": 0, "bad": []}
+        try:
+            ps = pathsym.paths(u)
+            detail["paths"] = len(ps)
+            for conds, env, blocks in ps:
+                r = env.get(0, ("undef", 0))
+                if not (r[0] == "agg" and r[1].endswith("schedule::TimeSpan")):
+                    verdict = "undecided: result shape"
+                    break
+                st, du = r[3]["start_time"], pathsym._strip_clone(r[3]["duration"])
+                ws = which_start(st)
+                if not (du[0] == "call" and du[1].endswith("::sub") and len(du[2]) == 2):
+                    detail["bad"].append("duration is not end - start")
+                    continue
+                we = which_end(du[2][0])
+                if not ws or not we or not same(du[2][1], st):
+                    detail["bad"].append("start/end are not one of the operands' start/end")
+                    continue
+                other_s = [w for w in S if w != ws[0]][0]
+                other_e = [w for w in S if w != we[0]][0]
+                end_of = lambda w: ("call", "std::ops::Add::add", [S[w], D[w]], 0)
+                if not pathsym.implies_le(conds, S[ws[0]], S[other_s], same):
+                    detail["bad"].append("returns %s.start on a path that does not establish %s.start <= %s.start" % (ws[0], ws[0], other_s))
+                if not pathsym.implies_le(conds, end_of(other_e), end_of(we[0]), same):
+                    detail["bad"].append("ends at %s's end on a path that does not establish %s.end <= %s.end" % (we[0], other_e, we[0]))
+            if detail["bad"]:
+                verdict = "VIOLATION"
+        except pathsym.TooComplex as ex:
+            verdict = "undecided: %s" % ex
+        res.site("K9|timespan-union", True, dict(detail, verdict=verdict))
+        if verdict == "VIOLATION":
+            res.find("K9|timespan-union", u.loc(), "TimeSpan::union is not {start: min(self.start, rhs.start), duration: max(self.end, rhs.end) - start}: %s" % sorted(set(detail["bad"])), "union of (0,10) and (0,1) - a short span nested in a long one - comes out as (0,1)")
+        elif verdict != "ok":
+            res.undecided.append("K9|timespan-union " + verdict)
+    # R5 calibrated scheduling maps times back through `first calibrated index -> source index`
+    bas = [f for f in db.fns if f.name == "as_schedule" and "control_flow_graph::BasicBlock" in f.path and f.kind == "AssocFn"]
+    if len(bas) != 1:
+        res.missing_anchor("BasicBlock::as_schedule")
+    else:
+        b_ = bas[0]
+        dom = b_.dominators()
+        cn = lambda name: [(bb, t, [fn_expr_operand(b_, a) for a in t["args"]]) for bb, t, c in b_.calls() if c and c.get("name") == name]
+        ins = [x for x in cn("insert") if len(x[2]) == 3]
+        ext, psh = cn("extend"), cn("push")
+        ok = len(ins) == 1 and len(ext) == 1 and len(psh) == 1
+        if ok:
+            key_e, val_e = ins[0][2][1], ins[0][2][2]
+            ok = key_e[0] == "call" and key_e[1].endswith("::len") and same_origin(key_e[2][0], ext[0][2][0]) and key_e[3] in dom.get(ext[0][0], set()) and key_e[3] in dom.get(psh[0][0], set()) \
+                and val_e[0] == "field" and val_e[2] == "0" and any(n[0] == "call" and n[1].endswith("::enumerate") for n in _nodes(val_e))
+            # the insert happens for every source instruction
+            ok = ok and not [c for c in b_.control_deps(ins[0][0], transitive=False) if not _is_loop_or_try(b_, c[0])]
+        res.site("K5|calibrated-index-map", True, {"verdict": "ok" if ok else "VIOLATION"})
+        if not ok:
+            res.find("K5|calibrated-index-map", b_.loc(), "BasicBlock::as_schedule does not record, for every source instruction, (number of calibrated instructions emitted before it) -> (its index)", "the time span of an expanded instruction is attributed to its neighbour")
+        fold = [g for g in db.closures_of(b_) if any(c and c.get("name") == "union" for bb, t, c in g.calls())]
+        ok = False
+        if len(fold) == 1:
+            g = fold[0]
+            gc = lambda name: [(bb, t, [fn_expr_operand(g, a) for a in t["args"]]) for bb, t, c in g.calls() if c and c.get("name") == name]
+            rng, nb, un_, in_ = gc("range"), gc("next_back"), gc("union"), gc("insert")
+            if len(rng) == 1 and len(nb) == 1 and len(un_) == 1 and len(in_) == 1:
+                r = rng[0][2][1]
+                upto = r[0] == "agg" and r[1].endswith("RangeToInclusive") and r[3]["end"][0] == "field" and r[3]["end"][2] == "instruction_index"
+                uargs = un_[0][2]
+                merged = any(n[0] == "call" and n[1].endswith("::get_mut") for n in _nodes(uargs[0])) and uargs[1][0] == "field" and uargs[1][2] == "time_span"
+                # result of union is stored back into the existing entry
+                stored = any(s_["k"] == "assign" and s_["p"]["pr"] and fn_expr_operand(g, {"m": {"l": s_["p"]["l"], "pr": []}})[0] in ("field", "as", "call") and any(c[1].endswith("::union") for c in expr_calls(__import__("qv.engine", fromlist=["fn_expr_rvalue"]).fn_expr_rvalue(g, s_["rv"]))) for i_, j_, s_ in g.stmts())
+                fresh = in_[0][2][2][0] == "field" and in_[0][2][2][2] == "time_span"
+                ok = upto and merged and stored and fresh
+        res.site("K5|calibrated-span-merge", True, {"verdict": "ok" if ok else "VIOLATION"})
+        if not ok:
+            res.find("K5|calibrated-span-merge", b_.loc(), "BasicBlock::as_schedule does not merge the spans of a source instruction's calibrated instructions (lookup of the greatest recorded index <= the calibrated index; union into the existing span, or insert)", "a gate calibrated to two pulses is reported with the span of only one of them")
     res.explanation = "Sibling-table agreement between the default handler's role/is_scheduled tables and the duration table, equality of the edge kind tested by the two filters of as_schedule, and the one-item-per-node / end = start + duration skeleton."
     res.assumptions = ["petgraph Topo over EdgeFiltered visits every node once in a topological order of the filtered edges"]
     return res
+
+
+def _nodes(e):
+    out = []
+    walk_expr(e, out.append)
+    return out
+
+
+def _is_loop_or_try(f, sb):
+    t = f.blocks[sb]["t"]
+    if t["k"] != "switch":
+        return False
+    e = fn_expr_operand(f, t["d"])
+    return e[0] == "discr" and e[1][0] == "call" and (e[1][1].endswith("::next") or e[1][1].endswith("Try>::branch"))
